@@ -5,8 +5,10 @@ Import ListNotations.
 Open Scope N_scope.
 
 Definition w64 := 18446744073709551616.
-Definition add64 (a b : N) := (a + b) mod w64.
-Definition rotr (x : N) (n : N) := N.lor (N.shiftr x n) ((N.shiftl x (64 - n)) mod w64).
+Definition mask64 := 18446744073709551615.
+(* operands are below 2^64, so one conditional subtraction is the reduction *)
+Definition add64 (a b : N) := let s := a + b in if s <? w64 then s else s - w64.
+Definition rotr (x : N) (n : N) := N.lor (N.shiftr x n) (N.land (N.shiftl x (64 - n)) mask64).
 
 Definition IV : list N := [
  0x6a09e667f3bcc908; 0xbb67ae8584caa73b; 0x3c6ef372fe94f82b; 0xa54ff53a5f1d36f1;
@@ -100,3 +102,5 @@ Definition blake2b_plain (data : list N) : list N :=
 Example blake2b_abc :
   firstn 8 (blake2b_plain [97;98;99]) = [0xBA; 0x80; 0xA5; 0x3F; 0x98; 0x1C; 0x4D; 0x0D].
 Proof. vm_compute. reflexivity. Qed.
+
+Definition bench_data := repeat 7 2000%nat.
